@@ -9,7 +9,7 @@ no new descriptor, empty private TMPDIR, sf_close returned 0, no sanitizer abort
 """
 import re, struct, os, sys
 
-from .. import formats, c03fuzz, lateopen, closefault
+from .. import formats, c03fuzz, lateopen, closefault, chmapfix
 from ..core import Violation, modules_for
 
 LEAK_ENV = {"ASAN_OPTIONS": "exitcode=77:detect_leaks=1:allocator_may_return_null=1:abort_on_error=0:leak_check_at_exit=0"}
@@ -126,7 +126,9 @@ def op_pool(rng, hn, st, ch):
     ops.append(("cmd %s 10cf 8 %s" % (hn, hx(struct.pack("<II", 7, 0))), "setcue 0"))      # count inconsistent with the size
     ops.append(("cmd %s 10d1 %d %s" % (hn, c03fuzz.SIZEOF_INST, hx(c03fuzz.inst_blob())), "setinst 1"))
     ops.append(("cmd %s 10d1 100 zero" % hn, "setinst 0"))
-    ops.append(("cmd %s 1101 %d %s" % (hn, 4 * ch, hx(struct.pack("<%di" % ch, *[(k % 3) + 1 for k in range(ch)]))), "setchanmap 1"))
+    # a refused map (SF_FALSE: no command hook, no mask / layout tag for it) leaves no block behind: the verdict is the Lean model's
+    for cm in ([(k % 3) + 1 for k in range(ch)], chmapfix.MASK_IDS[:ch] if ch <= 18 else [2] * ch):
+        ops.append(("cmd %s 1101 %d %s" % (hn, 4 * ch, hx(struct.pack("<%di" % ch, *cm))), "setchanmap %d" % chmapfix.verdict(st["fmt"], ch, cm)))
     ops.append(("cmd %s 1101 %d zero" % (hn, 4 * ch), "setchanmap 0"))
     ops.append(("cmd %s 1101 %d zero" % (hn, 4 * ch + 4), "setchanmap 0"))
     ops.append(("setchunk %s %s %s" % (hn, hx(rng.choice([b"Cust", b"abcd", b"XyZ1"])), hx(bytes(rng.randrange(256) for _ in range(rng.choice([1, 4, 7, 32]))))), "setchunk 1"))
@@ -251,7 +253,9 @@ def gen_fixed(ctx, rng):
                 sc.open("h0", "s0", "w", fmt, ch, route)
                 seq = []
                 for k in range(3):
-                    seq += [("cmd h0 1101 %d %s" % (4 * ch, hx(struct.pack("<%di" % ch, *[k % 3 + 1] * ch))), "setchanmap 1")]
+                    for cm in ([k % 3 + 1] * ch, chmapfix.MASK_IDS[k:k + ch]):      # refused by most containers / in mask-bit order
+                        seq += [("cmd h0 1101 %d %s" % (4 * ch, hx(struct.pack("<%di" % ch, *cm))), "setchanmap %d" % chmapfix.verdict(fmt, ch, cm))]
+                ncm = len(seq)
                 seq += [("cmd h0 10f1 %d %s" % (c03fuzz.SIZEOF_BEXT, hx(c03fuzz.bext_blob())), "setbext 1")] * 2
                 seq += [("cmd h0 1400 %d %s" % (c03fuzz.SIZEOF_CART, hx(c03fuzz.cart_blob())), "setcart 1")] * 2
                 seq += [("cmd h0 10cf 564 %s" % hx(cue_blob(2)), "setcue 1"), ("cmd h0 10cf 284 %s" % hx(cue_blob(1)), "setcue 1")]
@@ -276,7 +280,7 @@ def gen_fixed(ctx, rng):
                 sc.op(data_line("h0", ch, 64, rng), "write 1")
                 sc.peek("h0")
                 # everything again after the audio: most of it must now fail without moving the ledger
-                for hl, ml in seq[:4] + seq[5:7] + [("setchunk h0 %s 00" % hx(b"Late"), "setchunk 1"), ("setstr h0 1 %s" % hx(b"late title"), "setstr 1")]:
+                for hl, ml in seq[:4] + seq[ncm:ncm + 1] + seq[ncm + 2:ncm + 4] + [("setchunk h0 %s 00" % hx(b"Late"), "setchunk 1"), ("setstr h0 1 %s" % hx(b"late title"), "setstr 1")]:
                     if hl.startswith("setchunk"):
                         sc.handles["h0"]["nchunks"] += 1
                     sc.op(hl, ml)
@@ -286,7 +290,7 @@ def gen_fixed(ctx, rng):
                 for hl, ml in (("chunkiter h1 null", "iter none"), ("chunknext h1", "other"), ("chunkiter h1 %s" % hx(b"Ck01"), "iter 1" if fmt != 0x030002 and fmt != 0x0B0002 else "iter 0"),
                                ("chunkiter h1 null", "iter none"), ("setstr h1 1 %s" % hx(b"title set while reading"), "setstr 1"),
                                ("cmd h1 10cf 564 %s" % hx(cue_blob(2)), "setcue 1"), ("cmd h1 10a1 24 %s" % hx(DITHER["on"]), "dither r on 1"),
-                               ("cmd h1 1101 %d %s" % (4 * ch, hx(struct.pack("<%di" % ch, *[1] * ch))), "setchanmap 1"), ("r h1 s16 i %d" % (4 * ch), "other")):
+                               ("cmd h1 1101 %d %s" % (4 * ch, hx(struct.pack("<%di" % ch, *[1] * ch))), "setchanmap %d" % chmapfix.verdict(fmt, ch, [1] * ch)), ("r h1 s16 i %d" % (4 * ch), "other")):
                     sc.op(hl.replace(" h0 ", " h1 "), ml)
                     sc.peek("h1")
                 sc.close("h1")
